@@ -226,3 +226,27 @@ Proof.
   - exact (mol_to_graph_amap_id m _ Hn Hs (mol_to_graph_closed m Hn Hs)).
   - split; [exact (mapped_nodes_in m)|exact (mapped_ix_spec m)].
 Qed.
+
+(** rsmi_to_its with a caller's node_attrs that names all six attributes (any order: the selection is a set) is
+    rsmi_to_its with the defaults; with fewer names the unselected attributes read as the core defaults in typesGH *)
+Theorem rsmi_to_its_sel_spec (s : asel) (mr mp : rmol) :
+  rsmi_to_its_sel all_sel mr mp = rsmi_to_its_m mr mp /\
+  forall g h J, rsmi_to_graph_m mr mp = Some (g, h) -> rsmi_to_its_sel s mr mp = Some J ->
+    forall n b, label J n = Some b ->
+      i_G b = side_tuple (fill_graph s g) n /\ i_H b = side_tuple (fill_graph s h) n /\
+      (forall a, label g n = Some a -> a_el (i_G b) = (if p_el s then g_el a else EL_STAR) /\
+                                       a_hc (i_G b) = (if p_hc s then g_hc a else 0) /\
+                                       a_ch (i_G b) = (if p_ch s then g_ch a else 0) /\
+                                       a_arom (i_G b) = (if p_ar s then g_arom a else false)).
+Proof.
+  split.
+  - unfold rsmi_to_its_sel, rsmi_to_its_m. destruct (rsmi_to_graph_m mr mp) as [[g h]|]; [|reflexivity].
+    assert (forall x : mgraph, fill_graph all_sel x = x) as E.
+    { intros [ns es]. unfold fill_graph. cbn [gnodes gedges]. f_equal. rewrite <- (map_id ns) at 2. apply map_ext.
+      intros [k [e ar hc ch nb am]]. reflexivity. }
+    rewrite !E. reflexivity.
+  - intros g h J Eg EJ n b L. unfold rsmi_to_its_sel in EJ. rewrite Eg in EJ. inversion EJ; subst J. clear EJ.
+    destruct (its_label_types _ _ n b L) as (E1 & E2 & _). split; [exact E1|]. split; [exact E2|].
+    intros a La. rewrite E1. unfold side_tuple, fill_graph, label. cbn [gnodes].
+    rewrite (assoc_map_val (fun _ (x : gnode) => fill_sel s x)). fold (label g n). rewrite La. cbn. auto.
+Qed.
